@@ -106,7 +106,7 @@ class Obs:
                         raise ValueError("Unsorted idx for idl[%s]" % (name))
                     self.idl[name] = idx
                 elif isinstance(idx, (list, np.ndarray)):
-                    if np.asarray(idx).dtype.kind == 'u':
+                    if np.asarray(idx).dtype.kind == 'u' or (np.asarray(idx).dtype.kind == 'i' and np.asarray(idx).dtype.itemsize < 8):
                         idx = np.asarray(idx).astype(np.int64)
                     dc = np.unique(np.diff(idx))
                     if np.any(dc < 0):
